@@ -24,6 +24,8 @@ R14f commands survive the interpreter swap of a live edit: Engine.on_interpreter
      interpreter. The requests that are executing (and those queued) in the old manager must be handed to the new one - the
      way the pending Restart request already is - or be cancelled and finalized there; dropped, a UOD command started by
      injected code (or by the method, or by the user) is never ticked again, never finalized and stays registered.
+R14g an injected `Call macro` makes its own invocation (opstatic/macrocall.py): a caller that arrives while another call of the macro is in
+     progress does not join it (see C02 R02e) - joined, the injected code executes zero times or stops the run in the error state.
 """
 from __future__ import annotations
 
@@ -40,6 +42,9 @@ MM = "openpectus.engine.method_manager:MethodManager"
 def run(ctx) -> None:
     _run_main(ctx)
     _r14f(ctx)
+    ctx.rule("R14g", "an injected Call macro makes its own invocation")
+    from ..macrocall import check as _macro_owner
+    _macro_owner(ctx, "R14g")
 
 
 def _run_main(ctx) -> None:
